@@ -12,7 +12,7 @@ from . import common
 
 PROP = "C02"
 KQ = ("CE", "CO", "CO0", "CEG", "PPO")
-KT = KQ + ('PGO', 'CEE', 'CD')
+KT = KQ + ('PGO', 'CEE')
 
 _WS = re.compile(r"\s+")
 _WSRUN = re.compile(r"[ \t]+")
